@@ -147,6 +147,24 @@ def run(pid, tier):
         o.finding(kind='pd', case=ev.get('case'), ft=ev.get('ft'), k=ev.get('k'), found=ev.get('found'), res=str(ev.get('res'))[:80], show=ev.get('show'), event=ev,
                   signature='pd:%s:%s:%s' % (ev.get('case'), ev.get('ft'), ev.get('k')))
     o.samples.append({'kind': 'Poisson PD steps S/Q: measured acceptance suffix', 'event': json.loads(plines[0])})
+    # Zipf<f64> / Zeta<f64> pointwise (the f32 instantiations have the exact law above)
+    rjf = wd / 'rej64.ndjson'
+    r12 = tlc('MCRej64', 'MCRej64.cfg', pid, 'rej64_cases', workers=1, timeout=1200, heap='2g', pipe_to=[str(RDV), 'btpe-drive', '--out', str(rjf)])
+    require_ok(r12, 'MCRej64')
+    s12 = json.loads(r12.consumer_out.strip().splitlines()[-1])
+    if s12['events'] < 150:
+        raise ToolError('btpe-drive (rej64): too few events: %s' % s12)
+    r13 = tlc('TraceBtpe', 'TraceBtpe.cfg', pid, 'rej64_trace', trace_mode=True, env={'TRACE': rjf}, timeout=1200, heap='4g')
+    require_ok(r13, 'TraceBtpe (rej64)')
+    if r13.rejected or r13.violated:
+        raise ToolError('rej64 trace not consumed: %s' % (r13.rejected or r13.violated))
+    o.add_tlc(r13, 'TraceBtpe: %d measured Zipf<f64> / Zeta<f64> acceptance prefixes at the anchors of Rej64Table' % s12['events'])
+    jl = rjf.read_text().splitlines()
+    o.traces += len(jl)
+    o.extra['rej64_drive'] = s12
+    for (ln, ev) in parse_bad(r13.out):
+        o.finding(kind='rej64', case=ev.get('case'), i=ev.get('i'), x=ev.get('x'), res=str(ev.get('res'))[:80], show=ev.get('show'), event=ev,
+                  signature='rej64:%s:%s' % (ev.get('case'), ev.get('i')))
     o.samples.append({'kind': 'Knuth method: exact P(X = 0) of Poisson<f64>', 'event': {k: v for k, v in json.loads(klines[-5]).items() if k != 'probes'}})
     o.samples.append({'kind': 'exact law of a two-word rejection sampler (f32) over 2^48 tickets', 'event': {k: v for k, v in json.loads(rlines[0]).items() if k != 'probes'}})
     o.samples.append({'kind': 'ticket histogram (real sampler -> TraceDiscrete)', 'event': next(e for e in evs if e['op'] == 'hist' and e['kind'] == 'hin' and e['par'][0] >= 8)})
@@ -161,7 +179,7 @@ def run(pid, tier):
         'the accepting second words are a prefix of relative length f(y)/f(m) with f the hypergeometric pmf itself (2^-22); the exponential tails and everything between anchors are NOT decided',
         'Poisson PD (lambda >= 12) is decided POINTWISE in its main path: at the anchors of spec/PdTable.tla (7 values of lambda, k within 3.2 sigma below l, f64 and f32) the uniform words that return k after a normal deviate with floor k are a suffix of relative length '
         '1 - min((lambda-k)^3/d, 1 - pmf(k)/hat(k)) with pmf the Poisson pmf itself (2^-24 / 2^-15); the immediate-acceptance step I is structural (k >= l returns without a uniform draw); the double-exponential branch (steps E / H) likewise at 5 exponential deviates per lambda: the accepted uniform words form an interval around the middle word with half-lengths (pmf(k2) - hat(k2)) exp(e) / (2c) (2^-19 / 2^-12); everything between anchors is NOT decided',
-        'the f64 instantiations of Zipf/Zeta are floating-point rejection kernels whose laws are NOT decided',
+        'Zipf<f64> / Zeta<f64> are decided POINTWISE at the anchors of spec/Rej64Table.tla (13 parameter points, first uniform j/16 and, for Zeta, proposals up to 2^320): the proposal is the table\'s and the accepting second uniform words are a prefix of the documented relative length (2^-40); between the anchors NOT decided',
         'Zipf/Zeta: the documented pmf values are mpmath constants of spec/RejectionTable.tla; the law formula A_k / A assumes two words per iteration and an acceptance region that is a prefix of the acceptance lattice, '
         'both checked (other = 0; probes) - and is itself checked by ticket enumeration on a toy instance (RejToy.tla, with a deliberately wrong variant that must fail)',
         'half a ticket (>= 2^-31) is eleven orders of magnitude above the rounding error of the code\'s recurrences',
